@@ -1,0 +1,30 @@
+//go:build verif
+
+package radixsort
+
+// The functions below expose the recursive cores of the radix sorts on an arbitrary range and digit,
+// and Quick3WayString without its shuffle (package-global math/rand), so that the verification
+// harness in /verif can compare them with its model exactly.
+
+// VerifQuick3WayString runs quick3WayString(a, lo, hi, d).
+func VerifQuick3WayString(a []string, lo, hi, d int) {
+	quick3WayString(a, lo, hi, d)
+}
+
+// VerifMsdString runs msdString(a, aux, lo, hi, d) with a fresh aux.
+func VerifMsdString(a []string, lo, hi, d int) {
+	aux := make([]string, len(a))
+	msdString(a, aux, lo, hi, d)
+}
+
+// VerifMsdInt runs msdInt(a, aux, lo, hi, d) with a fresh aux.
+func VerifMsdInt(a []int, lo, hi, d int) {
+	aux := make([]int, len(a))
+	msdInt(a, aux, lo, hi, d)
+}
+
+// VerifMsdUint runs msdUint(a, aux, lo, hi, d) with a fresh aux.
+func VerifMsdUint(a []uint, lo, hi, d int) {
+	aux := make([]uint, len(a))
+	msdUint(a, aux, lo, hi, d)
+}
